@@ -389,6 +389,18 @@ func Run(r *ev.Run) {
 			frs = append(frs, fr{fmt.Sprintf("big-exact%d", target), tlsref.FragmentMax(0x0301, h.Msg()), h})
 		}
 		frs = append(frs, fr{"big-at-16384", tlsref.FragmentMax(0x0301, big.Msg()), big}, fr{"big-uneven", tlsref.Fragment(0x0301, big.Msg(), 1000, 17000, 17001, 33000), big})
+		// big hellos in tiny records (the records as received are many times longer than the message), and a hello longer than a
+		// record cut into equal halves (the same number of records as the library's own framing would use, cut elsewhere)
+		for _, tf := range [][2]int{{24000, 1}, {60000, 4}, {65540, 3}, {20000, 10000}, {33000, 11000}} {
+			h := helloCase{Version: 0x0303, SID: 32, Exts: []int{0, 1, 2}}.build()
+			h.Exts = append(h.Exts, tlsref.Opaque(0x6b6b, 0))
+			h.Exts[len(h.Exts)-1] = tlsref.Opaque(0x6b6b, tf[0]-len(h.Msg()))
+			var cuts []int
+			for o := tf[1]; o < tf[0]; o += tf[1] {
+				cuts = append(cuts, o)
+			}
+			frs = append(frs, fr{fmt.Sprintf("big%d-in-%d-byte-records", tf[0], tf[1]), tlsref.Fragment(0x0301, h.Msg(), cuts...), h})
+		}
 		tail := cat2(tlsref.Record(20, 0x0303, []byte{1}), tlsref.Record(23, 0x0303, tlsref.DetBytes("app", 50)))
 		for _, f := range frs {
 			for ksi := range ks {
